@@ -41,7 +41,7 @@ def body_type(race, tribe, gender):
 
 def plan(tier):
     if tier == "quick":
-        return [("debug", 8, dict(full=False))]
+        return [("debug", 8, dict(full=False)), ("release", 4, dict(full=False))]
     return [("debug", 16, dict(full=True))]
 
 
